@@ -96,7 +96,7 @@ def build_source(ctx, rng, kind, idx):
         return ds, closers, {"kind": kind, "fixture": name, "n": len(ds)}
     n = int(rng.choice([1, 9, 10, 11, 19, 20, 21, 22, 39, 41])) if rng.random() < 0.5 \
         else int(rng.integers(1, 90))
-    model = gd.gen_model(rng, n=n, hostile_logs=False, roi=(int(rng.integers(4, 10)),
+    model = gd.gen_model(rng, n=n, hostile_logs=True, roi=(int(rng.integers(4, 10)),
                                                            int(rng.integers(4, 10))))
     if kind == "hdf5short" and n > 2:
         # interrupted recording: one feature holds fewer events than the others; the export
